@@ -56,6 +56,13 @@ def _to_int_terms(a):
     return out
 
 
+def _plain(x):
+    """an object array that holds no symbolic value any more (differences cancelled the symbols) as the float array numpy's ufuncs need"""
+    if isinstance(x, real_np.ndarray) and x.dtype == object and not has_sym(x):
+        return x.astype(float)
+    return x
+
+
 def objarr(a):
     a = real_np.asarray(a)
     return a if a.dtype == object else a.astype(object)
@@ -144,7 +151,36 @@ class NPProxy:
 
     def unique(self, ar, *a, **kw):
         # (with axis=... numpy refuses object arrays; integer content is concretised as for the other set routines)
+        o = real_np.asarray(ar, dtype=object) if has_sym(ar) else None
+        if o is not None and any(isinstance(x, Sym) and not x.isint for x in o.flat):
+            return self._unique_real_rows(o, *a, **kw)
         return real_np.unique(self._int_concrete(ar, 'unique'), *a, **kw)
+
+    def _unique_real_rows(self, o, return_index=False, return_inverse=False, return_counts=False, axis=None, **kw):
+        """np.unique on symbolic reals: lexicographic sort (comparisons fork through the solver, exactly as python's sorted on tuples
+        does) and removal of rows that are equal; the first occurrence in the input represents its class, as numpy's stable sort does"""
+        if return_inverse or return_counts or kw:
+            raise Unsupported("np.unique(return_inverse / return_counts) on symbolic reals")
+        if axis is None:
+            rows = [(x,) for x in o.flat]
+        elif axis == 0 and o.ndim == 2:
+            rows = [tuple(r) for r in o]
+        else:
+            raise Unsupported("np.unique on symbolic reals along this axis")
+        order = sorted(range(len(rows)), key=lambda i: rows[i] + (i,))
+        keep = []
+        for i in order:
+            if keep and all(bool(a_ == b_) for a_, b_ in zip(rows[keep[-1]], rows[i])):
+                continue
+            keep.append(i)
+        vals = real_np.empty((len(keep),) + ((o.shape[1],) if axis == 0 else ()), dtype=object)
+        for k, i in enumerate(keep):
+            if axis == 0:
+                for c in range(o.shape[1]):
+                    vals[k, c] = rows[i][c]
+            else:
+                vals[k] = rows[i][0]
+        return (vals, real_np.array(keep, dtype=int)) if return_index else vals
 
     def setdiff1d(self, ar1, ar2, **kw):
         return real_np.setdiff1d(self._int_concrete(ar1, 'setdiff1d'), self._int_concrete(ar2, 'setdiff1d'), **kw)
@@ -203,7 +239,7 @@ class NPProxy:
             for idx, v in real_np.ndenumerate(a):
                 out[idx] = real_np.float64(round(v))
             return out if a.shape else out[()]
-        return real_np.round(x, decimals, **kw)
+        return real_np.round(_plain(x), decimals, **kw)
 
     def rint(self, x):
         return self.round(x)
@@ -218,7 +254,7 @@ class NPProxy:
             for idx, v in real_np.ndenumerate(a):
                 out[idx] = real_np.float64(real_math.floor(v))
             return out if a.shape else out[()]
-        return real_np.floor(x)
+        return real_np.floor(_plain(x))
 
     def ceil(self, x):
         if has_sym(x):
@@ -227,7 +263,7 @@ class NPProxy:
             for idx, v in real_np.ndenumerate(a):
                 out[idx] = real_np.float64(real_math.ceil(v))
             return out if a.shape else out[()]
-        return real_np.ceil(x)
+        return real_np.ceil(_plain(x))
 
     def cross(self, a, b):
         a = real_np.asarray(a)
